@@ -213,10 +213,12 @@ class VariableTransformer:
 
         numeps = 1e-6  # accepted numerical error
         tests = np.zeros(4)
-        tests[0] = np.all(np.abs(ginv(g(lbtest)) - lbtest) < numeps)
-        tests[1] = np.all(np.abs(ginv(g(ubtest)) - ubtest) < numeps)
-        tests[2] = np.all(np.abs(ginv(g(self.orig_plb)) - self.orig_plb) < numeps)
-        tests[3] = np.all(np.abs(ginv(g(self.orig_pub)) - self.orig_pub) < numeps)
+        # error relative to the magnitude of the bound (absolute below 1)
+        relerr = lambda x: np.abs(ginv(g(x)) - x) / np.maximum(1.0, np.abs(x))
+        tests[0] = np.all(relerr(lbtest) < numeps)
+        tests[1] = np.all(relerr(ubtest) < numeps)
+        tests[2] = np.all(relerr(self.orig_plb) < numeps)
+        tests[3] = np.all(relerr(self.orig_pub) < numeps)
         if not np.all(tests):
             raise ValueError("Cannot invert the transform to obtain the identity at the provided boundaries.")
 
